@@ -36,16 +36,27 @@ def hasCycles (g : G) : M Bool := do
       | .fuelOut => throw "fuel:phase1.visit"
   pure false
 
-/-- `execDepthFirst`: sources first, then every node; marked edges reversed in marking order -/
-def execDepthFirst (g : G) : M G := do
-  let roots := (g.nodeIds.filter fun n => (g.node n).ins.isEmpty) ++ g.nodeIds
-  let mut c : DfsBreakerMinimal.Cfg := ⟨[], [], [], [], []⟩
-  for r in roots do
-    if !c.visited.contains r then
-      match DfsBreakerMinimal.run (outE g) (dfsFuel g) { c with stack := [(r, outE g r, none)], visited := r :: c.visited } with
-      | some c' => c := c'
+/-- the roots `execDepthFirst` starts from: sources first, then every node -/
+def dfsRoots (g : G) : List Nat := (g.nodeIds.filter fun n => (g.node n).ins.isEmpty) ++ g.nodeIds
+
+/-- one `visit` per root that is not visited yet -/
+def dfsLoop (g : G) : List Nat → DfsBreakerMinimal.Cfg → M DfsBreakerMinimal.Cfg
+  | [], c => pure c
+  | r :: rs, c =>
+    if c.visited.contains r then dfsLoop g rs c
+    else match DfsBreakerMinimal.run (outE g) (dfsFuel g) { c with stack := [(r, outE g r, none)], visited := r :: c.visited } with
+      | some c' => dfsLoop g rs c'
       | none => throw "fuel:phase1.depthFirstProcessor.visit"
-  pure (c.rev.reverse.foldl G.reverse g)
+
+/-- the edges the depth-first breaker marks, in marking order -/
+def dfsMarked (g : G) : M (List Nat) := do
+  let c ← dfsLoop g (dfsRoots g) ⟨[], [], [], [], []⟩
+  pure c.rev.reverse
+
+/-- `execDepthFirst`: marked edges reversed in marking order -/
+def execDepthFirst (g : G) : M G := do
+  let marked ← dfsMarked g
+  pure (marked.foldl G.reverse g)
 
 /-! ### greedy -/
 structure GreedySt where
